@@ -346,8 +346,16 @@ def consolidate_part(ctx):
         options = suds.options.Options()
         coll = SchemaCollection(FakeWsdl())
         schemas = []
-        for form, prefixes, locals_ in specs:
-            root = Parser().parse(string=node(form, prefixes, locals_).encode()).root()
+        # the first node may stand below an element (wsdl:definitions, wsdl:types) that binds prefixes of its own
+        outer = [(p, rng.choice(["urn:c", "urn:d", "urn:e"])) for p in rng.sample(["p", "q", "r"], rng.randint(0, 3))] \
+            if rng.random() < 0.5 else []
+        for which, (form, prefixes, locals_) in enumerate(specs):
+            text = node(form, prefixes, locals_)
+            if which == 0 and outer:
+                text = "<holder%s>%s</holder>" % ("".join(' xmlns:%s="%s"' % pu for pu in outer), text)
+            root = Parser().parse(string=text.encode()).root()
+            if which == 0 and outer:
+                root = root.children[0]
             sch = Schema(root, "urn:x", options, {}, coll)
             coll.add(sch)
             schemas.append(sch)
@@ -364,7 +372,17 @@ def consolidate_part(ctx):
         meta = {"first": {"form": specs[0][0] or "unqualified", "prefixes": [list(p) for p in specs[0][1]],
                           "locals": [{"name": n, "form": f} for n, f in specs[0][2]]},
                 "second": {"form": specs[1][0] or "unqualified", "prefixes": [list(p) for p in specs[1][1]],
-                           "locals": [{"name": n, "form": f} for n, f in specs[1][2]]}}
+                           "locals": [{"name": n, "form": f} for n, f in specs[1][2]]},
+                "outer": [list(p) for p in outer]}
+        ctx.dist["consolidate:first node %s" % ("below bindings" if outer else "on its own")] += 1
+        # the oracle for prefixes: whatever the first node's content could resolve before, it resolves to the same after
+        for p_ in ("p", "q", "r"):
+            before = dict(outer)
+            before.update(dict(specs[0][1]))
+            got_ = first.root.resolvePrefix(p_, None)
+            if p_ in before and (got_ is None or got_[1] != before[p_]):
+                ctx.fail("consolidation changed what a prefix means for the content of the first schema node", dict(meta, prefix=p_),
+                         None if got_ is None else got_[1], before[p_], kind="consolidate")
         ctx.case(common.canon(meta), meta["first"]["form"] != meta["second"]["form"] or
                  any(p[0] in [q[0] for q in specs[0][1]] for p in specs[1][1]))
         ctx.dist["consolidate:" + ("forms differ" if meta["first"]["form"] != meta["second"]["form"] else "forms equal")] += 1
@@ -865,6 +883,25 @@ def witness(ctx, k):
                   % inner)
         c = wsdlkit.client(wsdlkit.wsdl_doc(schema, input="E"), nosend=True)
         return b"nil" not in wsdlkit.envelope_bytes(c.service.f({"req": None, "r2": "x"}))
+    if kind == "inherited-prefix-clash":
+        # D54: the first block of a namespace inherits `pa` from wsdl:definitions, a later block of the same namespace
+        # binds `pa` to something else
+        blocks = ('<xsd:schema targetNamespace="%s" elementFormDefault="qualified"><xsd:import namespace="urn:o"/>'
+                  '<xsd:element name="f"><xsd:complexType><xsd:sequence><xsd:element ref="pa:item"/></xsd:sequence>'
+                  '</xsd:complexType></xsd:element></xsd:schema><xsd:schema targetNamespace="%s" xmlns:pa="%s" '
+                  'elementFormDefault="qualified"><xsd:complexType name="T"><xsd:sequence><xsd:element name="v" '
+                  'type="xsd:int"/></xsd:sequence></xsd:complexType><xsd:element name="g" type="pa:T"/></xsd:schema>'
+                  '<xsd:schema targetNamespace="urn:o" elementFormDefault="qualified"><xsd:element name="item" '
+                  'type="xsd:string"/></xsd:schema>' % (wsdlkit.TNS, wsdlkit.TNS, wsdlkit.TNS))
+        w = wsdlkit.wsdl_doc("", "f", None).decode()
+        w = w[:w.index("<wsdl:types>")] + "<wsdl:types>" + blocks + w[w.index("</wsdl:types>"):]
+        w = w.replace("<wsdl:definitions ", '<wsdl:definitions xmlns:pa="urn:o" ', 1)
+        try:
+            c = wsdlkit.client(w.encode(), nosend=True)
+            body = xmlread.find1(xmlread.parse(wsdlkit.envelope_bytes(c.service.f("x"))), "Body")
+            return [k["name"] for k in body["children"][0]["children"]] != [("urn:o", "item")]
+        except Exception:
+            return True
     if kind == "block-prefix-clash":
         tns = wsdlkit.TNS
         other = ('<xsd:schema targetNamespace="urn:o" elementFormDefault="qualified"><xsd:complexType name="O">'
